@@ -280,7 +280,8 @@ class Run:
         # which runs every family).  For any other property the scenario is cut just before the
         # panicking event so that everything up to it is still validated.
         cut = 0
-        for k, sc in enumerate(scs):
+        # (the wire specs judge panics themselves: there a panic is the violation, not an interruption)
+        for k, sc in enumerate(scs if spec != "Trace_Wire.tla" else []):
             for i, e in enumerate(sc):
                 if is_panic(e):
                     if self.pid == "C37":
